@@ -96,6 +96,11 @@ ValidKeyCond(c, names, h, rng) ==
 
 ----------------------------------------------------------------------------
 (* Plan *)
+\* an ExclusiveStartKey that is present but EMPTY (a caller feeding the last, empty LastEvaluatedKey back): refused, or read
+\* as "no start key" - the properties do not say which, but both clients must do the same (C17) and a read it is
+EmptyEsk(q) == q.esk.some /\ DOMAIN q.esk.k = {}
+NoEskOf(q) == ~q.esk.some \/ EmptyEsk(q)
+
 FailCls(mode) == IF mode = "internal" THEN {"internal"} ELSE {"forced"}
 Refuse(db, cls) == [ocs |-> {"err"}, cls |-> cls, next |-> db]
 Ok(next) == [ocs |-> {"ok"}, cls |-> {}, next |-> next]
@@ -280,7 +285,7 @@ Plan(db, e) ==
          ELSE LET tbl == cl.tables[e.t] IN
               IF ~ReadValid(tbl, e) THEN Refuse(db, GenErr)
               ELSE LET O == UNION { ReadMatchN(cl, e, it) : it \in Target(tbl, e.index).view }
-                   IN [ocs |-> (IF "E" \in O THEN {"err"} ELSE {}) \cup (IF O # {"E"} THEN {"ok"} ELSE {}),
+                   IN [ocs |-> (IF "E" \in O \/ EmptyEsk(e) THEN {"err"} ELSE {}) \cup (IF O # {"E"} THEN {"ok"} ELSE {}),
                        cls |-> GenErr, next |-> db]
 
     [] e.op = "Walk" ->   \* composite read: unpaginated read + page walk (+ delete of a boundary item)
@@ -375,7 +380,7 @@ PageOK(tbl, q, r) ==
   /\ \A i, j \in DOMAIN r.items : i # j => ~KeyEq(tbl, r.items[i], r.items[j])
   /\ r.count = Len(r.items)
   /\ (q.kind = "query" /\ Target(tbl, q.index).range.some) => SortedBy(r.items, Target(tbl, q.index).range.n, q.fwd)
-  /\ (~r.lek.some /\ ~q.esk.some) => EnumOf(r.items, MatchSet(tbl, q))
+  /\ (~r.lek.some /\ NoEskOf(q)) => EnumOf(r.items, MatchSet(tbl, q))
 
 SeqSame(a, b) == Len(a) = Len(b) /\ \A i \in DOMAIN a : SameItem(a[i], b[i])
 RECURSIVE Concat(_)
@@ -455,7 +460,7 @@ RespFails(db, e, r, sdk) ==
                [] e.op \in {"PutItem", "DeleteItem", "UpdateItem"} /\ oc = "ccf" /\ e.rvf /\ sdk = 2 ->   \* SDK v1.40 has no such request field
                     IF OptItemIs(r.ccfitem, Lookup(tbl, IF e.op = "PutItem" THEN e.item ELSE e.key)) THEN {} ELSE {"CcfItem"}
                [] e.op \in {"Query", "Scan"} /\ oc = "ok" ->
-                    IF (IF ~e.limit.some /\ ~e.esk.some THEN ReadAllOKN(cl, tbl, e, r) ELSE PageOK(tbl, e, r)) THEN {} ELSE {"Data"}
+                    IF (IF ~e.limit.some /\ NoEskOf(e) THEN ReadAllOKN(cl, tbl, e, r) ELSE PageOK(tbl, e, r)) THEN {} ELSE {"Data"}
                [] e.op = "Walk" /\ oc = "ok" ->
                     IF WalkOK(tbl, e, r) THEN {} ELSE {"Data"}
                [] e.op = "DescribeTable" /\ oc = "ok" ->
